@@ -436,6 +436,8 @@ def curated():
     s1 = struct([Member(P("i32")), Member(P("string")), Member(vec(P("u16"))), Member(opt(P("double")))], "S1"); A(s1)
     A(struct([Member(P("u8"), 4), Member(P("string"), 2), Member(P("i64"))], "SCArr"))
     A(struct([Member(carr(P("i32"), 3), 2), Member(carr(P("string"), 2), 2), Member(P("u8"))], "SNestC"))   # nested C arrays i32[2][3], string[2][2]
+    # wide strings followed by more data (readers that account characters vs bytes differently go wrong on what follows)
+    A(struct([Member(P("u16string")), Member(P("u64")), Member(arr(P("u32"), 4))], "SWide")); A(pair(P("u32string"), P("i64"))); A(vec(P("wstring"))); A(tup(P("u16string"), P("string"), P("u16")))
     A(struct([Member(P("u8"))], "SOne")); A(struct([Member(P("u8")), Member(P("u8"))], "SExt", external=True))
     A(struct([LBuf(P("u32"), 100, P("u8"))], "LBu32x100_u8"))
     A(struct([LBuf(P("u8"), 300, P("int"))], "LBu8x300_int"))
